@@ -206,14 +206,25 @@ func serializeDatetimeFromUnixNano(buf *bytes.Buffer, t int64) {
 	buf.WriteString(value.Int64ToStr(t))
 }
 
+// keyTextEscaper escapes the key separator (and the escape character itself) inside a text, so that two different lists
+// of values never serialize to the same key: ('A', 'B:[S]C') and ('A:[S]B', 'C') used to share the key [S]A:[S]B:[S]C.
+var keyTextEscaper = strings.NewReplacer("\\", "\\\\", ":", "\\:")
+
+func escapeKeyText(s string) string {
+	if strings.IndexByte(s, ':') < 0 && strings.IndexByte(s, '\\') < 0 {
+		return s
+	}
+	return keyTextEscaper.Replace(s)
+}
+
 func serializeString(buf *bytes.Buffer, s string) {
 	buf.Write([]byte{91, 83, 93})
-	buf.WriteString(strings.ToUpper(option.TrimSpace(s)))
+	buf.WriteString(escapeKeyText(strings.ToUpper(option.TrimSpace(s))))
 }
 
 func serializeCaseSensitiveString(buf *bytes.Buffer, s string) {
 	buf.Write([]byte{91, 83, 93})
-	buf.WriteString(option.TrimSpace(s))
+	buf.WriteString(escapeKeyText(option.TrimSpace(s)))
 }
 
 func serializeBoolean(buf *bytes.Buffer, b bool) {
